@@ -34,6 +34,11 @@ Subset (everything else raises Untranslatable):
     translation (scalars, indices, arrays, index arrays, masks, 2-D row arrays, tuples, None) against the prelude
     lean/TaurexModel/Gen/Prelude.lean (`Np.*`), partial evaluation of `is None` / `hasattr(x, '__len__')` tests under the
     declared calling pattern, loops over `enumerate(zip(...))` with `continue`, methods that assign attributes (`state=`).
+  * `dialect='seq'` (harness/translate_seq.py, read its docstring): the list mode plus Python ints that may be negative
+    (`int(x)`, `%`, `max`/`min`, int / float mixing), basic slices and indices with arbitrary int bounds (CPython's
+    adjustment of negative / out-of-range bounds: `a[b:-b]` with `b = 0` is empty), the shape tests numpy performs at
+    run time (element-wise operands, `a[lo:hi] = v`) as `ValueError` exits of an `Except` result, `raise` by exception
+    name, optional attributes, aliasing discipline for in-place stores (prelude lean/TaurexModel/Gen/SeqPrelude.lean).
   * methods that assign attributes: `state=['self.x', …]` (declared in `attrs`) — `self.x = e` / `self.x op= e` bind a local,
     a later `self.x` reads it, the value of the method (it falls off its end / bare `return`) is the tuple of the final
     values (an attribute it never assigns flows through as a parameter); parameter kind 'pair' (a two-element sequence:
@@ -44,6 +49,11 @@ Subset (everything else raises Untranslatable):
     Bool parameter, calls of translated (state) methods incl. `super().__init__`, closures defined inside a method, one
     iteration of a loop as a function (dict records), Python lists / 1-D arrays as `List α` with list-valued externals, loops
     over lists of abstract objects with `continue`, effect logs, TypeErrors inside loops (`Option` state).
+  * `dialect='objrec'` (harness/translate_objrec.py, read its docstring): 'obj' plus nested dict records (flat, components
+    named by key paths), `return <record>`, loops that fill a dict with the records of a translated iteration, `l.argmax()`.
+  * `dialect='par'` (harness/translate_par.py, read its docstring): 'obj' plus MPI collectives (the k-th collective call is a
+    parameter applied to k and the rank's contribution), `range(a, b, c)` / `l[a::c]` as `List.range'`, generators, an opaque
+    world threaded through declared effect calls, functions point-wise in a list of distinct dict keys (lifted keys).
   * `dialect='dyn'` (harness/translate_dyn.py, read its docstring): DYNAMICALLY TYPED Python for the glue code (input-file
     typing, class factories, output writer / loader): every value is a `Dyn.Val` (lean/TaurexModel/Gen/DynPrelude.lean),
     `isinstance`, `try/except`, dict / list / str operations, early `return` / `break` / `continue`, closures, fuel for
@@ -865,13 +875,22 @@ def fn_class(spec):
     if spec.get('dialect') == 'obj':                      # optional values, try/except, calls of state methods, lists
         from harness import translate_obj
         return translate_obj.FnObj
+    if spec.get('dialect') == 'objrec':                   # C09: 'obj' + nested dict records, dict-filling loops
+        from harness import translate_objrec
+        return translate_objrec.FnObjRec
+    if spec.get('dialect') == 'par':                      # C18: 'obj' + MPI collectives, rank-strided ranges / slices, generators
+        from harness import translate_par
+        return translate_par.FnPar
     if spec.get('dialect') == 'shaped':                   # C01/C03/C19: shaped numpy expressions, stores, lists of arrays
         from harness import translate_shaped
         return translate_shaped.FnShaped
     if spec.get('dialect') == 'list':                     # C05/C13/C17: numpy 1-D arrays as `List`, typed, Gen/Prelude.lean
         from harness import translate_list
         return translate_list.VFn
-    if spec.get('dialect') == 'py':                       # C07/C14: dicts, lists, tuples, strings, exceptions (Gen/PyPrelude.lean)
+    if spec.get('dialect') == 'seq':                      # C10/C12: 'list' + Python ints, general slices, run-time shape checks
+        from harness import translate_seq
+        return translate_seq.SeqFn
+    if spec.get('dialect') == 'py':                     # C07/C14: dicts, lists, tuples, strings, exceptions (Gen/PyPrelude.lean)
         from harness import translate_py
         return translate_py.PyFn
     if spec.get('dialect') == 'dyn':                      # C15/C16: dynamically typed Python values (Gen/DynPrelude.lean)
@@ -919,6 +938,7 @@ def translate_file(repo_root, specs, namespace, out_path, header=''):
             '  %s\n-/\nimport TaurexModel.Num\n%sset_option linter.unusedVariables false\n\nnamespace %s\n\nsection\nvariable {α : Type} [Add α] [Sub α] [Mul α] [Div α] '
             '[Neg α] [LT α] [LE α]\n  [DecidableLT α] [DecidableLE α] [Taurex.Transc α] %s\nopen Taurex\n\n'
             % (header, ('import TaurexModel.Gen.Prelude\n' if any(sp.get('dialect') == 'list' for sp in specs) else '')
+               + ('import TaurexModel.Gen.SeqPrelude\n' if any(sp.get('dialect') == 'seq' for sp in specs) else '')
                + ('import TaurexModel.Gen.PyPrelude\n' if any(sp.get('dialect') == 'py' for sp in specs) else '')
                + ('import TaurexModel.Gen.DynPrelude\n' if any(sp.get('dialect') == 'dyn' for sp in specs) else ''),
                namespace, lits))
